@@ -105,6 +105,9 @@ func besselSweepPoint(r *prng.Rand) (v, x float64) {
 func runBessel(c *fw.Ctx) {
 	var dir []vxPoint
 	dir = append(dir, vxPoint{2, 1e4}, vxPoint{-0.5, 0}, vxPoint{2.5, 3})
+	// witnesses first seen in sweeps
+	dir = append(dir, vxPoint{24, -5828708.299405402}, vxPoint{-16, -4686819.109409058}, vxPoint{-4.484888260252774, 8.257571924653318e-252},
+		vxPoint{389.9446435254067, 803.4331144174502})
 	for _, v := range besselV() {
 		for _, x := range besselX(v) {
 			dir = append(dir, vxPoint{v, x})
